@@ -258,6 +258,50 @@ theorem bp_remove_thread_refines (fuel : Nat) (env : Env) (inp : List Val) (out 
     ∃ t, runB (some BR) out.events = some t ∧ (t = none ∨ t = some BR) :=
   keeps_run BR out.events (exec_prims (keeps BR) _ remove_thread_keeps fuel env inp out h)
 
+/-- `cleanup_thread(chunk, r)` = `BpArena.clear` on the fields the model tracks: one event `cds_list_del(&r->node)` (the model's
+`registry.erase`), plain stores `r->ctr = 0`, `r->tid = 0`, `r->alloc = 0` (slot := `none`), `chunk->used = used - 1` -/
+theorem bp_cleanup_thread_refines (fuel : Nat) (env : Env) (C R : Loc) (u : Int) (v : Val) (rest : List Val)
+    (hc : env.vars "chunk" = some (.ptr C)) (hr : env.vars "rcu_reader_reg" = some (.ptr R))
+    (hu : env.priv (.field C "used") = some (.int u)) :
+    ∃ out, exec fuel Gen.Src.«bp.cleanup_thread» env (v :: rest) = .ok out ∧
+      out.events = [.ext "cds_list_del" [.ptr (.field R "node")] v] ∧ out.ctl = .normal ∧ out.inp = rest ∧
+      ∀ l, out.env.priv l =
+        if l = .field C "used" then some (.int (u - 1))
+        else if l = .field R "alloc" then some (.int 0)
+        else if l = .field R "tid" then some (.int 0)
+        else if l = .field R "ctr" then some (.int 0) else env.priv l :=
+  bp_cleanup_thread fuel env C R u v rest hc hr hu
+
+/-- `expand_arena`, empty chunk list = `BpArena.expand [] _ = ([Chunk.fresh INIT_READER_COUNT], .first)`: `mmap` of
+`8 * sizeof(reader) + sizeof(chunk)` bytes, `memset 0` (all slots free), `capacity = 8`, `cds_list_add_tail` (append) -/
+theorem bp_expand_arena_first_refines (fuel : Nat) (env : Env) (A N : Loc) (v1 v3 v4 : Val) (rest : List Val)
+    (ha : env.vars "arena" = some (.ptr A)) (h1 : v1.truthy = true) :
+    ∃ out, exec fuel Gen.Src.«bp.expand_arena» env (v1 :: .ptr N :: v3 :: v4 :: rest) = .ok out ∧
+      out.events = [.ext "cds_list_empty" [.ptr (.field A "chunk_list")] v1,
+                    .ext "mmap" [.int 0, .int (8 * 256 + 128), .int 3, .int 34, .int (-1), .int 0] (.ptr N),
+                    .ext "memset" [.ptr N, .int 0, .int (8 * 256 + 128)] v3,
+                    .ext "cds_list_add_tail" [.ptr (.field N "node"), .ptr (.field A "chunk_list")] v4] ∧
+      out.ctl = .ret none ∧ out.inp = rest ∧
+      ∀ l, out.env.priv l = if l = .field N "capacity" then some (.int 8) else env.priv l :=
+  bp_expand_arena_first fuel env A N v1 v3 v4 rest ha h1
+example : UrcuVerif.Gen.INIT_READER_COUNT = 8 := by decide
+
+/-- `expand_arena`, `mremap` fails = `BpArena.expand cs .newChunk = (cs ++ [Chunk.fresh (last.cap * 2)], .newChunk)`: the new
+chunk's capacity is twice the last chunk's, it is zeroed and appended -/
+theorem bp_expand_arena_new_refines (fuel : Nat) (env : Env) (A Lc N : Loc) (c : Nat) (v4 v5 : Val) (rest : List Val)
+    (ha : env.vars "arena" = some (.ptr A))
+    (hprev : env.priv (.field (.field A "chunk_list") "prev") = some (.ptr (.field Lc "node")))
+    (hcap : env.priv (.field Lc "capacity") = some (.int (c : Int))) :
+    ∃ out, exec fuel Gen.Src.«bp.expand_arena» env (.int 0 :: .int (-1) :: .ptr N :: v4 :: v5 :: rest) = .ok out ∧
+      out.events = [.ext "cds_list_empty" [.ptr (.field A "chunk_list")] (.int 0),
+                    .ext "mremap" [.ptr Lc, .int ((c : Int) * 256 + 128), .int (((2 * c : Nat) : Int) * 256 + 128), .int 0] (.int (-1)),
+                    .ext "mmap" [.int 0, .int (((2 * c : Nat) : Int) * 256 + 128), .int 3, .int 34, .int (-1), .int 0] (.ptr N),
+                    .ext "memset" [.ptr N, .int 0, .int (((2 * c : Nat) : Int) * 256 + 128)] v4,
+                    .ext "cds_list_add_tail" [.ptr (.field N "node"), .ptr (.field A "chunk_list")] v5] ∧
+      out.ctl = .normal ∧ out.inp = rest ∧
+      ∀ l, out.env.priv l = if l = .field N "capacity" then some (.int ((2 * c : Nat) : Int)) else env.priv l :=
+  bp_expand_arena_new fuel env A Lc N c v4 v5 rest ha hprev hcap
+
 /-- outside the registry section (lock not held, or signals open) the first registry-list operation is rejected -/
 example : runB (some ⟨true, false, false⟩) [.ext "cds_list_add" [.ptr (.field (.obj 1) "node"), .ptr registryLoc] (.int 0)] = none := by
   decide
